@@ -328,6 +328,13 @@ class FUdpSock:
         self.q, self.port, self.peer, self.refused = [], None, None, False
         self.proc = K.cur().proc
         self.closed = False
+        self.timeout = None
+
+    def settimeout(self, t):
+        self.timeout = t
+
+    def gettimeout(self):
+        return self.timeout
 
     def bind(self, addr):
         K.check_killed()
@@ -361,7 +368,9 @@ class FUdpSock:
         K.step("usendto", addr[1])
 
     def recvfrom(self, n):
-        K.block(lambda: bool(self.q) or self.refused, None, "urecv", self.port)
+        ok = K.block(lambda: bool(self.q) or self.refused, None if self.timeout is None else int(self.timeout * 1e9), "urecv", self.port)
+        if not ok:
+            raise TimeoutError("timed out")       # socket.timeout
         if self.refused and not self.q:
             self.refused = False
             raise ConnectionRefusedError()
